@@ -200,7 +200,7 @@ def _prim_equal(pv, sv):
     return type(pv) is type(sv) and pv == sv
 
 
-def embeds(p, s, binds):
+def embeds(p, s, binds, relax=()):
     """yield extended bindings under which pattern node p embeds at student node s"""
     if isinstance(p, ast.Expr) and isinstance(p.value, ast.Name) and (is_wild(p.value) or is_expr_ph(p.value)):
         if is_wild(p.value):
@@ -221,6 +221,9 @@ def embeds(p, s, binds):
         return
     if is_expr_ph(p):
         key, tgt = p.id, ast.dump(s)
+        if 'expr_repeat' in relax:
+            yield {**binds, key: binds.get(key, tgt)}
+            return
         if binds.get(key, tgt) == tgt:
             yield {**binds, key: tgt}
         return
@@ -228,6 +231,10 @@ def embeds(p, s, binds):
         yield binds
         return
     if type(p) is not type(s):
+        if 'expr_stmt' in relax and isinstance(p, ast.Expr) and isinstance(s, ast.stmt):
+            # CAIT's documented rule: an expression statement of the pattern matches inside any statement
+            for c in children(s):
+                yield from embeds(p.value, c, binds, relax)
         return
     b = dict(binds)
     for (f, pv), (f2, sv) in zip(prims(p), prims(s)):
@@ -249,13 +256,13 @@ def embeds(p, s, binds):
             yield bb
             return
         for jj in range(j, len(sc)):
-            for b2 in embeds(pc[i], sc[jj], bb):
+            for b2 in embeds(pc[i], sc[jj], bb, relax):
                 yield from rec(i + 1, jj + 1, b2)
     yield from rec(0, 0, b)
     if isinstance(p, ast.BinOp) and isinstance(p.op, (ast.Add, ast.Mult)) and len(pc) == 3 and len(sc) == 3:
-        for b1 in embeds(pc[0], sc[2], b):
-            for b2 in embeds(pc[1], sc[1], b1):
-                yield from embeds(pc[2], sc[0], b2)
+        for b1 in embeds(pc[0], sc[2], b, relax):
+            for b2 in embeds(pc[1], sc[1], b1, relax):
+                yield from embeds(pc[2], sc[0], b2, relax)
 
 
 def trim(n):
@@ -264,7 +271,7 @@ def trim(n):
     return n
 
 
-def witness(pattern, match):
+def witness(pattern, match, relax=()):
     """Is the returned match witnessed by a genuine embedding at match_root?
 
     A multi-statement pattern is parsed as a Module; CAIT roots such a match at the student node whose
@@ -286,22 +293,24 @@ def witness(pattern, match):
                     yield bb
                     return
                 for jj in range(j, len(seq)):
-                    for b2 in embeds(pstm[i], seq[jj], bb):
+                    for b2 in embeds(pstm[i], seq[jj], bb, relax):
                         yield from rec(i + 1, jj + 1, b2)
             for b in rec(0, 0, {}):
-                if _bind_ok(b, want, match):
+                if _bind_ok(b, want, match, relax):
                     return True
         return False
-    for b in embeds(p, s, {}):
-        if _bind_ok(b, want, match):
+    for b in embeds(p, s, {}, relax):
+        if _bind_ok(b, want, match, relax):
             return True
     return False
 
 
-def _bind_ok(b, want, match):
+def _bind_ok(b, want, match, relax=()):
     if not all(b.get(k) == v for k, v in want.items() if k in b):
         return False
     for k, v in match.exp_table.items():
+        if 'expr_repeat' in relax:
+            continue
         d = ast.dump(v.astNode)
         if k in b and b[k] != d and not (isinstance(v.astNode, ast.Expr) and b[k] == ast.dump(v.astNode.value)):
             return False
